@@ -153,12 +153,17 @@ class C12Prop(EnumProp):
             before = st.before
             arch_rows = st.archive_info
 
+            copied = {}
+
             def evaluate(k, inv, snap, sw):
+                have = [r_ for r_ in (arch_rows or []) if M.out_dir_rel(r_[0], r_[1]) in snap["tree"]
+                        and M.out_dir_rel(r_[0], r_[1]) not in before["tree"]]
+                copied[k] = bool(have) and inv.killed
                 return oracles.restore_violations(before, snap, inv.code, inv.killed, arch_rows)
 
             recs, total, exh = E.kill_enumeration(world, op, work, enum["budget"], r, evaluate)
             for rec in recs:
-                rec.update(step=i, op=op["op"])
+                rec.update(step=i, op=op["op"], dirs_copied=copied.get(rec["k"], False))
             records.extend(recs)
             info.update(total=total, exhaustive=exh, tried=len(recs), op=op["op"])
             return None
@@ -279,3 +284,60 @@ PROPS["C17"] = C17Prop(
     "resulting cond-out (rows + trees) and printed locations (resolved against the respective cwd) are compared. "
     "distinct = distinct (shape, digest); non-trivial = a command was compared from a non-root directory",
     quick_count=2500)
+
+
+
+# ---------------------------------------------------------------------------------------------
+# what each check assures, in its own words (MANIFEST level_claimed.text / level_note)
+
+_TEXT = {
+    "C01": "Every spawn / combine step / exit of every generated run is checked online against the model's "
+           "transitive closure: no dependent starts before, overlaps with, or starts after the failure of a "
+           "dependency executed in the same invocation; completion orders, batching of exits and -j are chosen by "
+           "the seeded scheduler. Exploration: evidence over the seeds run, not a proof.",
+    "C02": "Executed multiset, 'cached' lines, progress totals and new index rows of every run are compared with "
+           "the needed set computed by the reference model from the index contents and flags.",
+    "C03": "Failing subsets (exit code, signal, fork failure, exec failure) are injected by the fake kernel; the "
+           "started / failed / skipped sets, the final report and the exit status are compared with the model's "
+           "fail/skip closure; --stop-early is checked against the observed first failure (no later start, every "
+           "still-running task SIGTERMed through its group).",
+    "C04": "Online invariant over the running set at every spawn and exit: at most JOBS processes, sequential "
+           "tasks and combine steps alone, COND_SLOT distinct and in range, absent for sequential tasks and "
+           "JOBS = 1 (also when cond itself inherited one).",
+    "C05": "The documented selection rule re-implemented over the scenario's commit DAG is compared with what runs, "
+           "what `cond where` prints and what dependents get in COND_DEPS; the git binary is a stub that is "
+           "cross-validated against the real git in every run.",
+    "C07": "argv / cwd / environment of every spawn, the per-invocation dependency snapshot, the recorded version "
+           "vs the COND_OUT handed out, and conductor.lib evaluated under the child's environment are compared "
+           "with the model.",
+    "C08": "Freshness and emptiness of every experiment's directory at spawn, ids greater than every recorded id, "
+           "and byte-identity of every recorded directory across every later operation, under clock gaps of 0 s, "
+           "backward steps and restored future timestamps.",
+    "C09": "Child exits are placed at arbitrary monitoring instants of Conductor's and subprocess's code, batched, "
+           "before Popen returns, with stray children; a blocked main thread with no enabled event is the production "
+           "hang and is reported, as are lost, duplicated or misattributed outcomes. Signals interrupt blocking calls "
+           "only if they arrive while blocked (CPython's EINTR rule).",
+    "C10": "stdout.log / stderr.log, the bytes forwarded to Conductor's own streams and args/options records are "
+           "compared byte for byte with the scripted streams; the scheduler decides every raw read of each tee "
+           "thread and pre-empts the threads at every line.",
+    "C11": "Rows and trees before `cond archive` are compared with the archive's own index and with rows and trees "
+           "after `cond restore` into a project that lacks them, for all / --latest / task-closure selections; real tar.",
+    "C13": "An independently computed deletion set is compared with the disk diff and the printed list of every gc; "
+           "cond-out trees come from failed / aborted / killed runs and restores plus manual additions.",
+    "C17": "Differential: the same history under the same seed and schedule from the root and from drawn "
+           "directories; exit status, cond-out and printed locations must agree.",
+    "C18": "Every combine entry is resolved and compared with the directory the dependency wrote or had selected "
+           "in that invocation; conflicting entries must fail the run and stay untouched.",
+    "C06": "Invariant 'every row has a complete directory, produced by an execution that exited 0, with HEAD's "
+           "commit and dirty flag' evaluated after every operation and after a process kill at enumerated "
+           "syscall-adjacent instants (fork + os._exit) of run / restore / archive / gc.",
+    "C12": "All-or-nothing of restore evaluated for every corruption kind and after a process kill at enumerated "
+           "instants of the restore; existing version directories must stay byte-identical.",
+    "C16": "SIGINT / SIGTERM delivered at enumerated interpreter check points of `cond run`; every process running "
+           "at that moment must end up SIGTERMed (or gone), nothing unfinished recorded, exit through the abort path.",
+}
+for _pid, _t in _TEXT.items():
+    if _pid in PROPS:
+        P_ = PROPS[_pid]
+        P_.level_text = _t + (" " + EnumProp.level_text if isinstance(P_, EnumProp) else
+                              " Seeded exploration with a determinism self-test in every run; evidence over the seeds explored, not a proof.")
